@@ -120,7 +120,7 @@ class Check(object):
             os.makedirs(REPLAYS, exist_ok=True)
             path = os.path.join(REPLAYS, '%s_%s_%d.json' % (self.pid, self.tier, self._nviol_files))
             with open(path, 'w') as f:
-                json.dump({'property': self.pid, 'sig': jsonable(sig), 'what': what,
+                json.dump({'property': self.pid, 'tier': self.tier, 'seed': self.seed, 'sig': jsonable(sig), 'what': what,
                            'replay': jsonable(replay)}, f, indent=1)
             self.violations.append({'sig': jsonable(sig), 'what': what, 'replay': path})
             PRINTED[0] += 1
